@@ -93,6 +93,8 @@ func (s Script) bytes() []byte {
 	return b
 }
 
+var errWrappedEOF = fmt.Errorf("upload aborted: %w", io.EOF)
+
 func (s Script) term() error {
 	if s.Term == "err" {
 		switch s.ErrKind {
@@ -100,6 +102,8 @@ func (s Script) term() error {
 			return io.ErrUnexpectedEOF // what net/http reports for a truncated upload
 		case "closed-pipe":
 			return io.ErrClosedPipe
+		case "wrapped-eof":
+			return errWrappedEOF // an error that wraps io.EOF without being it: not a regular end (r10)
 		}
 		return errScripted
 	}
@@ -511,7 +515,7 @@ func genScript(t *rapid.T) Script {
 		}
 		s.Term = rapid.SampledFrom([]string{"eof", "eof", "err"}).Draw(t, "term")
 		if s.Term == "err" {
-			s.ErrKind = rapid.SampledFrom([]string{"", "", "unexpected-eof", "closed-pipe"}).Draw(t, "err-kind")
+			s.ErrKind = rapid.SampledFrom([]string{"", "", "unexpected-eof", "closed-pipe", "wrapped-eof"}).Draw(t, "err-kind")
 		}
 		s.EOFWith = rapid.Bool().Draw(t, "eofWith")
 		s.CloseErr = rapid.IntRange(0, 3).Draw(t, "closeErr") == 0
